@@ -3036,6 +3036,31 @@ fn outcome_key(r: &Res) -> &'static str {
 
 /// Minimised documents of the defect classes seen so far (differential only; the random
 /// stream carries the oracles for the same classes).
+/// `char::is_alphabetic` against the model's transcription, exhaustively on the windows the
+/// model claims to be exact on (answers are the alphabetic code points as ranges).
+const ALPHA_WINDOWS: [(u32, u32); 4] = [(0, 0x52F), (0x3041, 0x30FF), (0x4E00, 0x9FFF), (0xAC00, 0xD7A3)];
+
+fn alpha_sweep(rep: &mut Report) {
+    for (lo, hi) in ALPHA_WINDOWS {
+        let mut ranges: Vec<String> = vec![];
+        let mut start: Option<u32> = None;
+        for n in lo..=hi + 1 {
+            let a = n <= hi && char::from_u32(n).map_or(false, char::is_alphabetic);
+            match (a, start) {
+                (true, None) => start = Some(n),
+                (false, Some(s)) => {
+                    ranges.push(format!("{}-{}", s, n - 1));
+                    start = None;
+                }
+                _ => {}
+            }
+        }
+        rep.count("alphabet-sweep:windows");
+        rep.case(&format!("alpha {lo} {hi}"), true);
+        rep.expect(format!("c17 alpha {lo} {hi}"), ranges.join(","));
+    }
+}
+
 fn fixed_cases() -> Vec<(&'static str, X)> {
     let t = |tag: &str, text: &str| xe(tag, vec![], if text.is_empty() { vec![] } else { vec![X::T(text.into())] });
     let n = |tag: &str, name: &str, kids: Vec<X>| xe(tag, vec![("Name".to_string(), name.to_string())], kids);
